@@ -1,6 +1,7 @@
 package checks
 
 import (
+	"path/filepath"
 	"encoding/base64"
 	"encoding/json"
 	"fmt"
@@ -125,7 +126,7 @@ func c20Shard(t Tier, shard, n int) (run *report.Run) {
 func C20(t Tier) int {
 	run := report.NewRun("C20", t.Name, "model_checking", "E4+E1")
 	// (a) the scheduler exploration lives in its own binary (keystore.go compiled against the shims)
-	cmd := exec.Command("/verif/bin/kscheck", "explore", t.Name)
+	cmd := exec.Command(sibling("kscheck"), "explore", t.Name)
 	cmd.Stderr = os.Stderr
 	out, err := cmd.Output()
 	var ks struct {
@@ -161,12 +162,12 @@ func C20(t Tier) int {
 	}
 	// auxiliary: free-running race-detector pass (not the deciding step)
 	race := map[string]any{"ran": false}
-	if _, err := os.Stat("/verif/bin/ksrace"); err == nil {
+	if _, err := os.Stat(sibling("ksrace")); err == nil {
 		iters := "300"
 		if t.Thorough {
 			iters = "3000"
 		}
-		rc := exec.Command("/verif/bin/ksrace", iters)
+		rc := exec.Command(sibling("ksrace"), iters)
 		rout, rerr := rc.CombinedOutput()
 		race["ran"] = true
 		race["iterations"] = iters
@@ -303,4 +304,13 @@ func QueryHammer(rounds int) {
 			}
 		}
 	}
+}
+
+// sibling returns the path of another binary built next to this one.
+func sibling(name string) string {
+	exe, err := os.Executable()
+	if err != nil {
+		return "/verif/bin/" + name
+	}
+	return filepath.Join(filepath.Dir(exe), name)
 }
